@@ -197,6 +197,12 @@ func checkC08(c *Ctx) {
 	{
 		type hp struct{ name, src, want string }
 		hps := []hp{
+			// arguments are evaluated once, left to right, and bound as evaluated: a later argument
+			// that changes a number in place does not reach into an earlier one
+			{"args-are-values/function", "令计 = 0\n如何下一个？\n\t以计（自增：1）\n\t输出 计\n如何成对？\n\t输入甲、乙\n\t输出【甲，乙】\n输出（成对：（下一个）、（下一个））\n", `list[num(1),num(2)]`},
+			{"args-are-values/constructor", "定义点：\n\t其横 = 0\n\t其纵 = 0\n如何新建点？\n\t输入甲、乙\n\t其横 = 甲\n\t其纵 = 乙\n令数 = 1\n令物 = （新建点：数、以数（自增：10））\n输出【物之横，物之纵】\n", `list[num(1),num(11)]`},
+			{"args-are-values/type-method", "定义箱：\n\t其记 = 0\n\t如何装？\n\t\t输入甲、乙\n\t\t输出【甲，乙】\n令数 = 1\n令物 = （新建箱）\n输出 以物（装：数、以数（自增：10））\n", `list[num(1),num(11)]`},
+			{"args-are-values/display", "令数 = 1\n（显示：数、{以数（自增：10）}、数）\n输出 数\n", `num(11)`},
 			{"local-type-with-constructor", "如何造？\n\t输入名字\n\t定义猫：\n\t\t其名 = “无”\n\t如何新建猫？\n\t\t输入名\n\t\t其名 = 名\n\t输出（新建猫：名字）之名\n输出【（造：“咪”），（造：“喵”）】\n", `list[text("咪"),text("喵")]`},
 			{"local-type-default-constructor", "如何造？\n\t定义猫：\n\t\t其名 = “无”\n\t输出（新建猫）之名\n输出【（造），（造）】\n", `list[text("无"),text("无")]`},
 			{"module-type-with-constructor", "定义猫：\n\t其名 = “无”\n如何新建猫？\n\t输入名\n\t其名 = 名\n输出（新建猫：“咪”）之名\n", `text("咪")`},
